@@ -39,8 +39,8 @@ ASSUMPTIONS = [
     "how many batch calls a layer receives per composite batch is not judged, only the register access sequence",
 ]
 TIERS = {
-    "quick": {"per_shard": 2500, "max_ops": 8, "budget_s": 170},
-    "thorough": {"per_shard": 100000, "max_ops": 16, "budget_s": 840},
+    "quick": {"per_shard": 2500, "chunk": 2500, "max_ops": 8, "budget_s": 170},
+    "thorough": {"per_shard": 100000, "chunk": 2500, "max_ops": 16, "budget_s": 840},
 }
 
 MAX_LAYERS = 4
@@ -310,6 +310,19 @@ def cases(draw, max_ops: int):
     return {"layers": layers, "regs": regs, "ops": ops}
 
 
+
+def run_chunks(col, cfg, strategy, body):
+    """Spend cfg['per_shard'] examples in chunks so that an expired budget stops generation after at most one chunk
+    (hyp_run keeps generating examples after expiry).  Chunk 0 uses the plain shard seed."""
+    left, i = int(cfg["per_shard"]), 0
+    chunk = int(cfg.get("chunk", 1250))
+    while left > 0 and not col.expired():
+        n = min(chunk, left)
+        hyp_run(strategy, body, n, shard_seed(col.seed, col.shard) + 7919000 * i, col)
+        left -= n
+        i += 1
+
+
 def run_shard(col, cfg):
     def body(case):
         if not valid_case(case):
@@ -317,4 +330,4 @@ def run_shard(col, cfg):
         vs, labels, nontrivial = analyse(case)
         col.record(case, nontrivial, classes=sorted(labels), violations=vs)
 
-    hyp_run(cases(cfg["max_ops"]), body, cfg["per_shard"], shard_seed(col.seed, col.shard), col)
+    run_chunks(col, cfg, cases(cfg["max_ops"]), body)
